@@ -11,7 +11,7 @@ func runC18(c *Check) error {
 		"inductive step of (*token.Pool).Get and (*position.Pool).Get: block length L and offset off are unconstrained 64-bit values with L >= 1, 0 <= off <= L; the earlier pointer is &block[j] for every 0 <= j < off, or any element of an older block",
 		"base case NewPool(n) for every 1 <= n <= 2^40 (upper limit only so that make() is defined)",
 		"no bound on the number of requests: the invariant is re-established by every step; integer arithmetic is 64-bit wrap-around",
-		"concrete twin: L in {1,2,3}, 3L+1 requests with writes through every pointer")
+		"concrete twin: L in {1,2,3} (thorough: up to 33), 16L+1 requests (at most 150: 16 block boundaries for small L) with writes through every pointer")
 	c.Assumptions = append(c.Assumptions, stdAssumptions...)
 	c.Assumptions = append(c.Assumptions,
 		"two different make() results never overlap and distinct elements of one array do not overlap (Go memory model) - this turns 'distinct pointers' into 'writing through one never changes another'",
@@ -43,7 +43,11 @@ func runC18(c *Check) error {
 		Ls = []int{1, 2, 3, 4, 5, 7, 8, 16, 33}
 	}
 	for _, L := range Ls {
-		c.ExploreNeed(&interp.Job{Entry: "H_C18_Twin", Tag: "twin", Params: map[string]interface{}{"L": L}}, "twin")
+		n := 16*L + 1 // 16 block boundaries
+		if n > 150 {
+			n = 150
+		}
+		c.ExploreNeed(&interp.Job{Entry: "H_C18_Twin", Tag: "twin", Params: map[string]interface{}{"L": L, "n": n}}, "twin")
 	}
 	return nil
 }
